@@ -76,6 +76,22 @@ Definition x0_projected : bool :=
 Definition dykstra_calls_ok : bool :=
   forallb (fun c => (streq (c_file c) "solver") || mem (List.hd "" (c_args c)) ["self.projections"; "self.model.projections"])
           (filter (fun c => negb (streq (c_file c) "trust_region")) (calls_of T_calls "dykstra")).
+(* every point handed to evaluate_objective is the variable x, and the last assignment to x before the call, in the same
+   function, is x = <model>.as_absolute_coordinates(...): the evaluated point is the projected one, not the raw step *)
+Definition last_x_before (func : string) (line : Z) : option asite :=
+  fold_left (fun best a => if streq (a_func a) func && streq (a_name a) "x" && streq (a_target a) "x" && Z.ltb (a_line a) line
+                           then match best with Some b => if Z.ltb (a_line b) (a_line a) then Some a else best | None => Some a end
+                           else best) T_assigns None.
+Definition eval_sites : list csite :=
+  filter (fun c => streq (c_file c) "controller" || streq (c_file c) "solver") (calls_of T_calls "evaluate_objective").
+Definition eval_points_are_projected : bool :=
+  forallb (fun c => streq (List.hd "" (c_args c)) "x" &&
+                    match last_x_before (c_func c) (c_line c) with
+                    | Some a => prefix "self.model.as_absolute_coordinates(" (a_value a) || prefix "control.model.as_absolute_coordinates(" (a_value a)
+                    | None => false end) eval_sites &&
+  Z.leb 11 (Z.of_nat (List.length eval_sites)).
+Theorem C09_every_evaluated_point_is_projected : eval_points_are_projected = true.
+Proof. vm_compute. reflexivity. Qed.
 Theorem C09_box_is_projected_last : box_appended_last = true.
 Proof. vm_compute. reflexivity. Qed.
 Theorem C09_x0_is_projected : x0_projected = true.
@@ -86,5 +102,6 @@ Proof. vm_compute. reflexivity. Qed.
 Print Assumptions C09_eval_point_is_dykstra_output.
 Print Assumptions C09_box_last_exact.
 Print Assumptions C09_tolerance_bound.
+Print Assumptions C09_every_evaluated_point_is_projected.
 Print Assumptions C09_box_is_projected_last.
 Print Assumptions C09_x0_is_projected.
